@@ -1,0 +1,15 @@
+//go:build verif
+
+package app
+
+import gotime "time"
+
+// VerifNow lets a verification harness control the clock of the real context.
+var VerifNow func() (gotime.Time, bool)
+
+func verifNow() (gotime.Time, bool) {
+	if VerifNow != nil {
+		return VerifNow()
+	}
+	return gotime.Time{}, false
+}
